@@ -26,6 +26,8 @@ def main():
     if not a.prop:
         ap.error('property id required')
     tier = a.tier if a.tier in ('quick', 'thorough') else 'quick'
+    if tier == 'thorough':
+        os.environ.setdefault('PYVC_RUN_BUDGET_S', '1500')
     try:
         rc = runner.run_property(a.prop.lower(), tier, seed, a.jobs, a.write_ledger)
     except Exception:
